@@ -99,6 +99,14 @@ def threadEnd (s : S) (t : Nat) : S × Out :=
     ({ r.1 with threadHandle := r.1.threadHandle.filter (·.1 ≠ t) }, { freed := r.2, dtor := sortD owed })
   | none => (s1, { dtor := sortD owed })
 
+/-- library shutdown by thread `t`: the reference the library held for the calling thread's own handle goes -/
+def shutdown (s : S) (t : Nat) : S × Out :=
+  match lookup s.threadHandle t with
+  | some h =>
+    let r := drop s h
+    ({ r.1 with threadHandle := r.1.threadHandle.filter (·.1 ≠ t) }, { freed := r.2 })
+  | none => (s, {})
+
 def keyNew (s : S) (n : Bool) : S × Nat := ({ s with keys := s.keys ++ [n] }, s.keys.length)
 
 /-- the key is gone together with every value still stored under it -/
